@@ -1677,15 +1677,23 @@ static int __fnc_match (hawk_rtx_t* rtx, const hawk_fnc_info_t* fi, int support_
 
 		if (start == 0) start = 1;
 		else if (start < 0) start = len0 + start + 1;
-		if (start > len0 || start <= 0) n = 0;
+		if (start > (hawk_int_t)len0 + 1 || start <= 0)
+		{
+			/* the start position is outside the string. nothing to match against */
+			n = 0;
+		}
+		else
+		{
+			tmp.ptr = str0.b + start - 1;
+			tmp.len = len0 - start + 1;
 
-		tmp.ptr = str0.b + start - 1;
-		tmp.len = len0 - start + 1;
-
-		n = hawk_rtx_matchvalwithbcs(rtx, a1, &tmp, &tmp, &mat.b, (nargs >= support_start_index + 3? submat.b: HAWK_NULL));
-		hawk_rtx_freevalbcstr (rtx, a0, str0.b);
-
-		if (n <= -1) return -1;
+			n = hawk_rtx_matchvalwithbcs(rtx, a1, &tmp, &tmp, &mat.b, (nargs >= support_start_index + 3? submat.b: HAWK_NULL));
+			if (n <= -1)
+			{
+				hawk_rtx_freevalbcstr (rtx, a0, str0.b);
+				return -1;
+			}
+		}
 
 		/* RSTART: 0 on no match */
 		idx = (n == 0)? 0: ((hawk_int_t)(mat.b.ptr - str0.b) + 1);
@@ -1699,15 +1707,23 @@ static int __fnc_match (hawk_rtx_t* rtx, const hawk_fnc_info_t* fi, int support_
 
 		if (start == 0) start = 1;
 		else if (start < 0) start = len0 + start + 1;
-		if (start > len0 || start <= 0) n = 0;
+		if (start > (hawk_int_t)len0 + 1 || start <= 0)
+		{
+			/* the start position is outside the string. nothing to match against */
+			n = 0;
+		}
+		else
+		{
+			tmp.ptr = str0.o + start - 1;
+			tmp.len = len0 - start + 1;
 
-		tmp.ptr = str0.o + start - 1;
-		tmp.len = len0 - start + 1;
-
-		n = hawk_rtx_matchvalwithoocs(rtx, a1, &tmp, &tmp, &mat.o, (nargs >= support_start_index + 3? submat.o: HAWK_NULL));
-		hawk_rtx_freevaloocstr (rtx, a0, str0.o);
-
-		if (n <= -1) return -1;
+			n = hawk_rtx_matchvalwithoocs(rtx, a1, &tmp, &tmp, &mat.o, (nargs >= support_start_index + 3? submat.o: HAWK_NULL));
+			if (n <= -1)
+			{
+				hawk_rtx_freevaloocstr (rtx, a0, str0.o);
+				return -1;
+			}
+		}
 
 		/* RSTART: 0 on no match */
 		idx = (n == 0)? 0: ((hawk_int_t)(mat.o.ptr - str0.o) + 1);
@@ -1736,6 +1752,9 @@ static int __fnc_match (hawk_rtx_t* rtx, const hawk_fnc_info_t* fi, int support_
 		x2 = hawk_rtx_makemapval(rtx);
 		if (HAWK_UNLIKELY(!x2)) goto oops;
 		hawk_rtx_refupval (rtx, x2);
+
+		/* the array remains empty if nothing has matched. 'mat' is not set in that case */
+		if (n <= 0) goto fill_done;
 
 		/* add the full match value to the array at index "0" */
 		if (hawk_ooecs_fmt(&rtx->fnc.oout, HAWK_T("%d"), 0) == (hawk_oow_t)-1) goto oops;
@@ -1824,6 +1843,7 @@ static int __fnc_match (hawk_rtx_t* rtx, const hawk_fnc_info_t* fi, int support_
 			}
 		}
 
+	fill_done:
 		/* the caller of this function must be able to get the submatch count by
 		 * dividing the array size by 2 */
 		if (hawk_rtx_setrefval(rtx, (hawk_val_ref_t*)hawk_rtx_getarg(rtx, 2 + support_start_index), x2) <= -1) goto oops;
@@ -1840,12 +1860,18 @@ static int __fnc_match (hawk_rtx_t* rtx, const hawk_fnc_info_t* fi, int support_
 	if (x2) hawk_rtx_refdownval (rtx, x2);
 	hawk_rtx_refdownval (rtx, x1);
 	hawk_rtx_refdownval (rtx, x0);
+
+	/* 'mat' and 'submat' point into str0. it must stay alive until this point */
+	if (a0_type == HAWK_VAL_MBS) hawk_rtx_freevalbcstr (rtx, a0, str0.b);
+	else hawk_rtx_freevaloocstr (rtx, a0, str0.o);
 	return 0;
 
 oops:
 	if (x2) hawk_rtx_refdownval (rtx, x2);
 	if (x1) hawk_rtx_refdownval (rtx, x1);
 	if (x0) hawk_rtx_refdownval (rtx, x0);
+	if (a0_type == HAWK_VAL_MBS) hawk_rtx_freevalbcstr (rtx, a0, str0.b);
+	else hawk_rtx_freevaloocstr (rtx, a0, str0.o);
 	return -1;
 }
 
